@@ -93,7 +93,9 @@ var c06Values = [dNumDims][]string{
 	dVer:    {"v2", "v1-absent", "v3"},
 	dN:      {"3", "0", "1", "2", "30", "0-present-empty", "800000"}, // the last one (a list of more than 16 MiB: four length octets) is not part of the core product
 	dNU:     {"present", "absent"},
-	dExt:    {"aki+number", "absent", "number", "aki+number-9-octets", "aki+number-20-octets", "aki+number+unknown-noncritical", "aki+number+unknown-critical", "aki+number+delta-critical", "aki+number+idp-critical", "aki+number+ian-critical", "aki+number+freshest-critical", "aki+number+aia-critical"},
+	dExt:    {"aki+number", "absent", "number", "aki+number-9-octets", "aki+number-20-octets", "aki+number+unknown-noncritical", "aki+number+unknown-critical", "aki+number+delta-critical", "aki+number+idp-critical", "aki+number+ian-critical", "aki+number+freshest-critical", "aki+number+aia-critical",
+		// where an unsupported critical extension stands among supported critical ones must not matter
+		"critical-number+critical-aki+delta-critical", "delta-critical+critical-number+critical-aki", "critical-number+idp-critical+critical-aki", "critical-aki+critical-number"},
 	dEnc:    {"DER", "PEM-LF", "PEM-CRLF"},
 	dDate:   {"UTCTime", "GeneralizedTime"},
 	dSerial: {"small", "1byte", "2byte", "3byte", "8byte", "9byte-topbit", "16byte", "19byte", "20byte", "zero", "2^159", "20byte-topbit"},
@@ -329,6 +331,19 @@ func (c c06Case) build() (doc []byte, der []byte, wellFormed bool, mustReject bo
 	case "aki+number+delta-critical":
 		s.Exts = []pkix.Extension{aki, world.CRLNumberExt(7), world.DeltaCRLIndicatorExt()}
 		mustReject = true
+	case "critical-number+critical-aki+delta-critical", "delta-critical+critical-number+critical-aki", "critical-number+idp-critical+critical-aki", "critical-aki+critical-number":
+		ca, cn := aki, world.CRLNumberExt(7)
+		ca.Critical, cn.Critical = true, true
+		switch c06Values[dExt][c[dExt]] {
+		case "critical-number+critical-aki+delta-critical":
+			s.Exts, mustReject = []pkix.Extension{cn, ca, world.DeltaCRLIndicatorExt()}, true
+		case "delta-critical+critical-number+critical-aki":
+			s.Exts, mustReject = []pkix.Extension{world.DeltaCRLIndicatorExt(), cn, ca}, true
+		case "critical-number+idp-critical+critical-aki":
+			s.Exts, mustReject = []pkix.Extension{cn, world.StdCriticalExt("idp"), ca}, true
+		default:
+			s.Exts = []pkix.Extension{ca, cn} // supported extensions marked critical: nothing to refuse
+		}
 	case "aki+number+idp-critical", "aki+number+ian-critical", "aki+number+freshest-critical", "aki+number+aia-critical":
 		n := c06Values[dExt][c[dExt]]
 		s.Exts = []pkix.Extension{aki, world.CRLNumberExt(7), world.StdCriticalExt(strings.TrimSuffix(strings.TrimPrefix(n, "aki+number+"), "-critical"))}
